@@ -8,6 +8,7 @@ import (
 	"github.com/GuanceCloud/platypus/pkg/ast"
 	"github.com/GuanceCloud/platypus/pkg/engine"
 	plruntime "github.com/GuanceCloud/platypus/pkg/engine/runtime"
+	"github.com/GuanceCloud/platypus/pkg/engine/runtimev2"
 	"github.com/GuanceCloud/platypus/pkg/errchain"
 	"github.com/GuanceCloud/platypus/pkg/parser"
 )
@@ -81,6 +82,12 @@ func loadDirect(lc loadCase) map[string]any {
 			}
 			rec["callref"] = refs
 		}
+		// the v2 interpreter's check pass on the same text, with a table of the same names whose
+		// checker is a plain arity rule (at most three arguments)
+		if _, err2 := engine.ParseV2(s.Name, s.Src, v2CheckTable()); err2 != nil {
+			rec["check2_err"] = errJSON(err2)
+		}
+		rec["check2"] = true
 		scripts = append(scripts, rec)
 	}
 	res := map[string]any{"k": "load", "scripts": scripts, "fns": fnNames()}
@@ -126,6 +133,24 @@ func loadDirect(lc loadCase) map[string]any {
 	}
 	res["real"] = reals
 	return res
+}
+
+func v2CheckTable() map[string]*runtimev2.Fn {
+	t := map[string]*runtimev2.Fn{}
+	for _, hn := range fnNames() {
+		n := unhx(hn)
+		t[n] = &runtimev2.Fn{
+			CallCheck: func(ctx *runtimev2.Task, expr *ast.CallExpr) *errchain.PlError {
+				if len(expr.Param) > 3 {
+					return runtimev2.NewRunError(ctx, "too many arguments", expr.NamePos)
+				}
+				return nil
+			},
+			Call: func(ctx *runtimev2.Task, expr *ast.CallExpr) *errchain.PlError { return nil },
+			Desc: runtimev2.FnDesc{Name: n},
+		}
+	}
+	return t
 }
 
 func linkResult(acc map[string]*plruntime.Script, lerrs map[string]error, oks map[string]*plruntime.Script, d *dumper) map[string]any {
